@@ -231,6 +231,10 @@ func c09DrbgInit(r *Run, ret absint.Exit, res absint.Val, x, e *sym.Term) string
 	}
 	prog := r.Prog
 	get := func(field string) (*sym.Term, absint.Val) {
+		idx := FieldIndex(prog, models.SececPkg, "drbgRFC6979", field)
+		if fieldIsByteArray(prog, models.SececPkg, "drbgRFC6979", idx) > 0 {
+			return loadBytesField(r.Ex, ret.St, p, prog, models.SececPkg, "drbgRFC6979", idx), nil
+		}
 		v := fieldVal(r.Ex, ret.St, p, prog, models.SececPkg, "drbgRFC6979", field)
 		if sv, ok := v.(*absint.SliceVal); ok {
 			return r.Ex.SliceBytes(ret.St, sv), v
@@ -356,8 +360,8 @@ func c09Drbg(c *Ctx, prog *load.Program) {
 		var out *absint.SliceVal
 		r := RunFn(prog, protoSet(nil), name, &RunOpts{Args: named("drbg", "b"), Pre: func(ex *absint.Exec, st *absint.State, args []absint.Val) {
 			p := args[0].(*absint.Ptr)
-			ex.StoreLeaf(st, ex.FieldPtr(p, iv), ex.BytesToSlice(st, V, "v"), 0)
-			ex.StoreLeaf(st, ex.FieldPtr(p, ik), ex.BytesToSlice(st, K, "k"), 0)
+			storeBytesField(ex, st, p, prog, models.SececPkg, "drbgRFC6979", iv, V, "v")
+			storeBytesField(ex, st, p, prog, models.SececPkg, "drbgRFC6979", ik, K, "k")
 			ex.StoreLeaf(st, ex.FieldPtr(p, inu), sym.ConstBool(need), 0)
 			out = ex.BytesToSlice(st, absint.SymBytes("out", 32, 0), "b")
 			args[1] = out
@@ -369,11 +373,7 @@ func c09Drbg(c *Ctx, prog *load.Program) {
 		st := r.Final()
 		p := r.Args[0].(*absint.Ptr)
 		read := func(i int) *sym.Term {
-			sv, _ := st.Resolve(r.Ex.LoadLeaf(st, r.Ex.FieldPtr(p, i))).(*absint.SliceVal)
-			if sv == nil {
-				return nil
-			}
-			return r.Ex.SliceBytes(st, sv)
+			return loadBytesField(r.Ex, st, p, prog, models.SececPkg, "drbgRFC6979", i)
 		}
 		k1, v1 := K, V
 		if need {
